@@ -3,7 +3,9 @@
 undo) and record the outcome in seeded/<id>/meta.json under "recheck".  Never run while anything
 else uses /repo.  Usage: tools/reeval.py [id-prefix ...]
 REEVAL_TARGET=<scratch checkout at /repo's HEAD> applies the changes there instead of /repo (the
-checks then run with VERIF_DEV_REPO); REEVAL_SHARD=i/n takes every n-th change, REEVAL_JOBS=j workers."""
+checks then run with VERIF_DEV_REPO); REEVAL_SHARD=i/n takes every n-th change, REEVAL_JOBS=j workers.
+NOTE: an unsharded run ends with `git checkout -- evidence` (evidence written while a change was applied
+is not kept): run the quick checks on the clean tree afterwards to refresh the evidence files."""
 import glob
 import json
 import os
